@@ -84,6 +84,9 @@ def step (s : St) (ws : List String) : St × String :=
     match bytesOfHex hx with
     | some b => ({ s with orig := b.toArray }, s!"ok {b.length}")
     | none => (s, "bad-op")
+  | "slice" :: _ =>
+    -- how the harness slices the input across lzma_code() calls is invisible to the model: the verdict must not depend on it
+    (s, "ok")
   | ["reuse", n] =>
     -- handle reuse is invisible to the model: a re-initialised decoder behaves like a fresh one
     (s, s!"ok {if n == "0" then 0 else 1}")
